@@ -779,11 +779,18 @@ func verifyNum(c NumCase, agg *aggregation.MatchNumerical, vals []float64, errs 
 	if agg.Min() != mn || agg.Max() != mx {
 		return fmt.Errorf("Min/Max=(%v,%v), want (%v,%v)", agg.Min(), agg.Max(), mn, mx)
 	}
-	if math.Abs(agg.Mean()-meanF) > 1e-9*scaleV {
-		return fmt.Errorf("Mean=%v, two-pass reference %v (n=%d)", agg.Mean(), meanF, len(vals))
+	// Tolerance: a backward-stable one-pass mean / variance (running mean,
+	// Welford) is off by at most about n*eps*max|x| in absolute terms (its
+	// relative error is n*eps*kappa with kappa = rms(x)/sigma; times sigma
+	// that is n*eps*rms(x)). 64x that bound is allowed. A formula that
+	// squares the offset (sum of squares minus n*mean^2) is off by
+	// n*eps*max|x|^2/sigma - orders of magnitude more on clustered data.
+	tol := 64 * float64(len(vals)) * 2.220446049250313e-16 * scaleV
+	if math.Abs(agg.Mean()-meanF) > tol {
+		return fmt.Errorf("Mean=%v, two-pass reference %v (n=%d, tolerance %g)", agg.Mean(), meanF, len(vals), tol)
 	}
-	if math.Abs(agg.StdDev()-std) > 1e-7*scaleV {
-		return fmt.Errorf("StdDev=%v, two-pass reference %v (n=%d)", agg.StdDev(), std, len(vals))
+	if math.Abs(agg.StdDev()-std) > tol+1e-12*std {
+		return fmt.Errorf("StdDev=%v, two-pass reference %v (n=%d, tolerance %g)", agg.StdDev(), std, len(vals), tol)
 	}
 	an := agg.Analyze()
 	count := func(f func(x float64) bool) int {
@@ -841,15 +848,38 @@ func verifyNum(c NumCase, agg *aggregation.MatchNumerical, vals []float64, errs 
 	return nil
 }
 
+func minMaxOf(d map[float64]bool) (mn, mx float64, ok bool) {
+	mn, mx = math.Inf(1), math.Inf(-1)
+	for v := range d {
+		mn, mx, ok = math.Min(mn, v), math.Max(mx, v), true
+	}
+	return
+}
+
 func TestNumerical(t *testing.T) {
 	pbt.Run(t, pbt.Spec[NumCase]{
 		Property: "C07", Name: "numerical",
-		Rule:   "0..80 samples from a pool with repeats, negatives, fractions, huge values and unparsable strings (NaN/Inf/hex spellings excluded by construction); count exact; mean/std-dev vs two-pass big.Float within 1e-9/1e-7 * max(1,|x|max); median, quantile(p in [0,1] incl. 0 and 1), mode are order statistics (#{x<q} <= p*n <= #{x<=q}); forward and reversed analysis; 0-3 intermediate analyses (Analyze() orders the kept values in place) followed by more samples, some with monotone tails; non-trivial: >=4 numeric samples with >=2 distinct values",
+		Rule:   "0..80 samples from a pool with repeats, negatives, fractions, huge values and unparsable strings (NaN/Inf/hex spellings excluded by construction); count exact; mean/std-dev vs two-pass big.Float within 64*n*eps*max(1,|x|max) (the error bound of a stable one-pass formula, x64); 1 case in 4 is a cluster (offset 1e6..1e12, spread 1e-3..100) on which an unstable variance formula cancels; median, quantile(p in [0,1] incl. 0 and 1), mode are order statistics (#{x<q} <= p*n <= #{x<=q}); forward and reversed analysis; 0-3 intermediate analyses (Analyze() orders the kept values in place) followed by more samples, some with monotone tails; non-trivial: >=4 numeric samples with >=2 distinct values",
 		Budget: pbt.Budget{Quick: 30000, Thorough: 1000000},
 		Gen: func(t *rapid.T) NumCase {
 			n := rapid.IntRange(0, 80).Draw(t, "n")
 			c := NumCase{Reverse: rapid.Bool().Draw(t, "reverse")}
+			// 1 case in 4: a cluster - a large common offset with a small
+			// spread (unix timestamps, ids, byte counters): the shape on
+			// which an unstable variance formula cancels catastrophically
+			cluster := rapid.IntRange(0, 3).Draw(t, "cluster") == 0
+			var off float64
+			var spread float64
+			if cluster {
+				off = rapid.SampledFrom([]float64{1e6, 1e9, 1.7e9, -1e9, 1e12, 4294967296}).Draw(t, "offset")
+				spread = rapid.SampledFrom([]float64{1e-3, 1, 1, 100}).Draw(t, "spread")
+			}
 			for i := 0; i < n; i++ {
+				if cluster {
+					d := float64(rapid.IntRange(-1000, 1000).Draw(t, "d")) / 1000 * spread
+					c.Samples = append(c.Samples, pbt.S(strconv.FormatFloat(off+d, 'f', -1, 64)))
+					continue
+				}
 				if rapid.IntRange(0, 3).Draw(t, "rnd") == 0 {
 					c.Samples = append(c.Samples, pbt.S(strconv.FormatFloat(rapid.Float64Range(-1e6, 1e6).Draw(t, "f"), 'g', -1, 64)))
 				} else {
@@ -897,6 +927,9 @@ func TestNumerical(t *testing.T) {
 				l.Add(q == 0, "quantile-0")
 			}
 			l.Add(c.Reverse, "reverse")
+			if mn, mx, ok := minMaxOf(d); ok {
+				l.Add(mx-mn > 0 && math.Abs(mn) > 1e4*(mx-mn), "cluster(offset>1e4*spread)")
+			}
 			l.Add(len(c.AnalyzeAt) > 0, "interleaved-analysis")
 			l.Add(len(c.AnalyzeAt) > 0 && c.Reverse, "interleaved-analysis+reverse")
 			return k >= 4 && len(d) >= 2, l
